@@ -30,7 +30,8 @@ impl Stdl {
 
     /// the private field `modulus`
     pub(crate) fn modulus(&self) -> u64 {
-        self.0.modulus
+        #[allow(clippy::useless_conversion)]
+        u64::from(self.0.modulus) // compiles whether the field is u32 or u64
     }
 
     /// truncation point of the wrapped distribution
